@@ -1,27 +1,105 @@
 package main
 
 import (
+	"fmt"
 	"math/rand"
+	"os"
+	"strings"
 )
 
+var fuzzTokens = []string{"##!", "##!>", "##!<", "##!=>", "##!=<", "##!+", "##!^", "##!$", " assemble", " cmdline", " unix", " windows", " include", " include-except", " define", " name", " inc1", " --", " @", " ~",
+	"\n", "\n", "\n", "\r\n", " ", "\t", "(", ")", "(?:", "(?i:", "(?i)", "(?s:", "(?-s:", "(?m)", "\\(", "\\)", "\\(?i:", "\\\\(?i:", "[", "]", "[^", "\\]", "|", "*", "+", "?", "{", "}", "{2,3}", "{{", "}}", "{{name}}",
+	"\\", "\\\\", "\"", "\\\"", "'", "^", "$", ".", "\\s", "\\d", "\\x5c", "\\x{e9}", "a", "b", "foo", "A", "0", "é", "\xff", "\xc3", "\x00", "\x01", "\x0b", "\x7f", "-", "a-z", "i", "s", "x",
+	"\\t\\n\\f\\r ", "[\\s", "[\\t\\n\\f\\r -~]", "(?P<n>", "(?<n>", "\\Q", "\\E", "\\pL", "[[:alpha:]]", "\\b", "\\z"}
+
+func genFuzzText(r *rand.Rand, maxTokens int) string {
+	n := 1 + r.Intn(maxTokens)
+	var sb strings.Builder
+	for i := 0; i < n; i++ {
+		sb.WriteString(pick(r, fuzzTokens))
+	}
+	return sb.String()
+}
+
+// args: cfg x6, input, files…  — generate ends with a regex or a deliberate diagnostic, promptly
+func oracleC19(p *Pair, env *Env, a [][]byte) *Failure {
+	g := p.Impl(Op{"gen.run", a}, env.timeout)
+	if g.Status != "ok" && g.Status != "diag" {
+		return &Failure{What: "generate died with " + g.Status + " instead of a regex or a diagnostic", Detail: fmt.Sprintf("input %q\nfiles %q\n%s", a[6], a[7:], g.String())}
+	}
+	return nil
+}
+
+// the binary on stdin
+func oracleC19CLI(p *Pair, env *Env, a [][]byte) *Failure {
+	sb := mkSandbox(env)
+	defer os.RemoveAll(sb)
+	t := Tree{"regex-assembly/include/": nil, "regex-assembly/exclude/": nil}
+	files := a[7:]
+	for i := 0; i+2 < len(files); i += 3 {
+		dir := "include"
+		if string(files[i]) == "e" {
+			dir = "exclude"
+		}
+		t["regex-assembly/"+dir+"/"+string(files[i+1])] = files[i+2]
+	}
+	_ = t.write(sb)
+	c := runCLI(env, sb, a[6], "regex", "generate", "-")
+	if c.timeout {
+		return &Failure{What: "generate hangs", Detail: fmt.Sprintf("%q", a[6])}
+	}
+	if strings.Contains(string(c.stderr), "runtime error") || strings.Contains(string(c.stderr), "nil pointer") || strings.Contains(string(c.stderr), "fatal error:") {
+		return &Failure{What: "generate died from a runtime fault", Detail: fmt.Sprintf("input %q\nexit %d\n%s", a[6], c.exit, tail(string(c.stderr), 800))}
+	}
+	if c.exit != 0 && len(c.stdout) > 0 {
+		return &Failure{What: "generate failed but printed output", Detail: fmt.Sprintf("%q", c.stdout)}
+	}
+	return nil
+}
+
 func genC19(r *rand.Rand, tier string, env *Env) []Case {
-	n := 300
+	n, nFuzz, nCli, maxTok := 200, 500, 25, 40
 	if tier == "thorough" {
-		n = 6000
+		n, nFuzz, nCli, maxTok = 3000, 15000, 400, 600
 	}
 	var cases []Case
+	empty := [][]byte{{}, {}, {}, {}, {}, {}}
+	for _, w := range []string{"a\\(?i:foo\n", "(a\\(?i)b\n", "\\(?i:", "(?i:", "(?i:a", "x(?s:.)(?i)y\n", "((?i:a)|b)\n", "(?:a\n", "a)\n", "\\", "(?:\\)\n", "[(?i:]\n", "##!<", "##!=>", "##!=< \n", "##!> cmdline\n", "##!> include\n", "##!> include inc1 -- a\n"} {
+		args := append(append([][]byte{}, empty...), []byte(w))
+		cases = append(cases, Case{Kind: "fixed", Ops: []Op{{"gen.run", args}, {"pass.cleanUp", [][]byte{[]byte(w)}}}, Oracles: []Op{{"c19.nocrash", args}, {"c19.cli", args}}})
+	}
 	for i := 0; i < n; i++ {
-		p := genProgram(r, progOpts{maxDepth: 2, maxItems: 5, includes: true, defs: true, cmdline: true, exotic: 0.5, malformed: 0.15, flagsPfxSf: true})
-		cases = append(cases, Case{Kind: "program", Ops: []Op{p.parseOp(), p.genOp()}})
+		p := genProgram(r, progOpts{maxDepth: 2, maxItems: 5, includes: true, defs: true, cmdline: true, exotic: 0.5, malformed: 0.2, flagsPfxSf: true})
+		cases = append(cases, Case{Kind: "program", Ops: []Op{p.parseOp(), p.genOp()}, Oracles: []Op{{"c19.nocrash", p.genOp().Args}}})
+	}
+	for i := 0; i < nFuzz; i++ {
+		input := genFuzzText(r, maxTok)
+		args := append(append([][]byte{}, empty...), []byte(input))
+		if chance(r, 0.4) {
+			// fuzz text in an include file as well
+			args = append(args, []byte("i"), []byte("inc1.ra"), []byte(genFuzzText(r, maxTok/2)))
+		}
+		c := Case{Kind: "token-fuzz", Ops: []Op{{"gen.run", args}}, Oracles: []Op{{"c19.nocrash", args}}}
+		if i < nCli {
+			c.Kind = "token-fuzz+cli"
+			c.Oracles = append(c.Oracles, Op{"c19.cli", args})
+		}
+		// the clean-up passes alone on the same text: model and code agree on the fault class of every text
+		c.Ops = append(c.Ops, Op{"pass.cleanUp", [][]byte{[]byte(strings.ReplaceAll(input, "\n", ""))}})
+		cases = append(cases, c)
 	}
 	return cases
 }
 
 func init() {
+	oracles["c19.nocrash"] = oracleC19
+	oracles["c19.cli"] = oracleC19CLI
 	properties["C19"] = &Property{
 		ID: "C19", LeanMods: []string{"CrsProps.C19"},
-		Corr: "K2 (parser.Parse), K5 (Operator.Run end to end, real rassemble.Join answers fed to the model)",
-		Rule: "assembly programs from a tree grammar",
+		Corr: "K2 (parser.Parse), K3 (clean-up passes on arbitrary text: same fault class in model and code), K5 (Operator.Run end to end, real rassemble.Join answers fed to the model; every Join result monitored for the EngineShape assumption)",
+		Rule: "token-level fuzz: 1..40 (quick) / 1..600 (thorough) tokens from directive fragments, regex metacharacters, escapes (incl. escaped parentheses before `?i:`), braces, quotes, control and non-ASCII bytes, on stdin and in an include file; plus programs from the tree grammar with 20% structural faults; non-trivial = text of at least two tokens; distinct by bytes",
 		Gen:  genC19,
+		Assume: []string{"EngineShape (hypothesis of C19_generate_no_runtime_fault): rassemble.Join prints balanced text and answers every query — monitored on every Join result of the run",
+			"termination: the model is total; fuel parameters (include depth 40, loop bounds 2·len+2) are not reached on generated inputs (a cyclic include ends with a diagnostic in the code as well: file descriptors run out)"},
 	}
 }
